@@ -998,10 +998,12 @@ class IoWorld(World):
             # later acknowledged write / read pair still round-trips
             World.probe(self, "roundtrip_ok_after_faults")
 
-    def _tol(self, kind, fmt):
-        if fmt.startswith("gpx"):
-            return 5.0001e-9
-        return 5.0001e-11 if kind == "GEO" else 5.0001e-4
+    def _tol(self, kind, fmt, axis="x"):
+        """What C13 promises, not what the writers happen to do today: 1 mm for metric values
+        (ENU, ECEF, and every height), 1e-8 degree for longitudes and latitudes."""
+        if kind == "GEO" and axis in ("x", "y"):
+            return 1.00001e-8
+        return 1.00001e-3
 
     def _cmp_track(self, fmt, spec, got, use_u, use_t):
         """None when `got` equals the written track to the promised precision,
@@ -1023,6 +1025,7 @@ class IoWorld(World):
             gx, gy, gz = p.getX(), p.getY(), p.getZ()
             ez = z if use_u else 0.0
             for nm, ev, gv in (("x", x, gx), ("y", y, gy), ("z", ez, gz)):
+                tol = self._tol(kind, fmt, nm)
                 if not (abs(ev - gv) <= tol + abs(ev) * 4e-16):
                     return ("coords", "%s of obs %d differs beyond the written precision" % (nm, i),
                             [x, y, ez], [gx, gy, gz])
